@@ -506,5 +506,37 @@ def r16_9(ctx):
     return r
 
 
+def r16_10(ctx):
+    """RFC 5766 11.4: a ChannelData frame is <channel number (16)> <length (16)> <application data> [padding], and the
+    Length field counts the application data only - padding, where it is used, is NOT included. A server relays exactly
+    Length bytes to the peer: a length that includes pad bytes appends zeros to every DTLS record and moves the SRTP
+    authentication tag. Decided on the writer: the 16-bit values send_channel_data serialises are the channel number and
+    the length of the caller's data, in that order (however the frame is assembled or padded afterwards)."""
+    r = RuleResult("R16.10", "K6/dataflow", "the ChannelData Length field is the length of the application data")
+    fn = "transports::ice::turn::TurnClient::send_channel_data::{closure#0}"
+    b = ctx.body(fn)
+    r.scope.append(fn)
+    fields = []
+    for bi, t, p in b.calls():
+        if p and p.endswith("to_be_bytes") and t["a"] and bi not in b.cleanup:
+            fields.append((bi, b.term_operand(t["a"][0])))
+
+    def is_channel(v):
+        return mir.has_field(v, "channel") or v == ("arg", "channel")
+
+    def is_data_len(v):
+        return v[0] == "cast" and v[1][0] == "call" and v[1][1].endswith("::len") and (mir.has_field(v[1], "data") or mir.has(v[1], lambda x: x == ("arg", "data")))
+    r.need("16-bit header fields written by send_channel_data", len(fields), 2)
+    kinds = ["channel" if is_channel(v) else "data-length" if is_data_len(v) else "other" for _bi, v in fields]
+    if kinds == ["channel", "data-length"]:
+        r.ok({"header": "channel number, then (data.len() as u16)", "sites": [b.where(bi) for bi, _ in fields]})
+    else:
+        bad = next((bi for (bi, v), k in zip(fields, kinds) if k == "other"), fields[0][0])
+        r.violate(fn, "chandata:length", b.where(bad),
+                  "the ChannelData header is not <channel number><length of the application data>: got %s - a Length that counts padding (or "
+                  "anything else) makes the TURN server relay extra bytes to the peer" % kinds)
+    return r
+
+
 def run(ctx):
-    return [r16_1(ctx), r16_2(ctx), r16_3(ctx), r16_4(ctx), r16_5(ctx), r16_6(ctx), r16_7(ctx), r16_8(ctx), r16_9(ctx)]
+    return [r16_1(ctx), r16_2(ctx), r16_3(ctx), r16_4(ctx), r16_5(ctx), r16_6(ctx), r16_7(ctx), r16_8(ctx), r16_9(ctx), r16_10(ctx)]
